@@ -30,3 +30,10 @@ package pgo
 //@ func (a *posAdjuster) Position(pos) (p)
 //@   trusted maps a position of the augmented text back to the patch (sort.Search over the adjustments, go/token): summarised
 //@   assigns nothing
+
+// The traversal callback of augmentAST: a placeholder the augmentation put into the text is replaced by an
+// elision node standing exactly where the placeholder stood - elisions of the two sides of a change are
+// associated by position (C04, C13).
+//@ func (a *augmenter) Apply(cursor) (res)
+//@   requires cursor != nil && a.file != nil && a.augs != nil
+//@   at call (*golang.org/x/tools/go/ast/astutil.Cursor).Replace assert [C04,C13] the-elision-stands-where-its-placeholder-stood: dots != nil && dots.Dots == nodePos(n)
